@@ -78,15 +78,14 @@ inline std::string fp_cross(const CrossSection& c) {
 // Names the first differing field between two fingerprints ("" if equal).
 inline std::string fp_diff(const std::string& a, const std::string& b) {
   if (a == b) return "";
+  static const char* kPrefix[] = {"npv", "np", "nv", "ne", "nt", "nq", "n2v", "n2c", "nc", "st", "oid", "bb", "eps", "gt", "vp", "tv", "mf",
+                                  "mt", "ri", "ro", "rt", "rf", "fi", "ht", "tol", "pl", "ar", "bd", "g", "M", "X"};
   auto A = split(a, ' '), B = split(b, ' ');
   for (size_t i = 0; i < std::min(A.size(), B.size()); i++)
     if (A[i] != B[i]) {
-      std::string k;
-      for (char c : A[i]) {
-        if (isdigit((unsigned char)c) && k.size() >= 2) break;
-        k += c;
-      }
-      return k.empty() ? A[i] : k;
+      for (const char* p : kPrefix)
+        if (A[i].compare(0, strlen(p), p) == 0) return p;
+      return A[i];
     }
   return "length";
 }
